@@ -49,17 +49,18 @@ def kernel_queries(tier):
     for op in (1, 2, 3, 4, 5, 6, 7, 8):
         qs.append(kq('kernel/%s/any' % OPN[op], 'h_cmp', {'OPER': op, 'LK': 0, 'RK': 0}, kf_excl=[KF_NAT], timeout=300))
     # ^ : integral base of PB structural bits, concrete integral exponent PE, every kind pair that can hold them
-    PW = {'PowerOf': 6}
+    def PW(e): return {'PowerOf': max(1, abs(e).bit_length()) + 1}     # frames of the square-and-multiply recursion
     KP = 'C04-pow-neg-even-sign'
     emax = 6 if tier == 'quick' else 15
     for e in list(range(-emax, emax + 1)):
-        b = {'ref_pow': abs(e) + 1}
-        d = {'LK': 0, 'RK': (0 if e >= 0 else 16 + 2 + 8), 'PB': 4, 'PE': e}
-        qs.append(kq('kernel/pow/small/e%d' % e, 'h_pow', d, kf_excl=[KP], bounds=b, rec_bounds=PW, backend=('sat' if e >= 0 else 'cvc5'), timeout=300))
-    qs.append(kq('kernel/pow/kf-neg-even', 'h_pow', {'LK': 0, 'RK': 16 + 2 + 8, 'PB': 4, 'PE': -2}, kf_only=KP, bounds={'ref_pow': 3}, rec_bounds=PW, backend='cvc5', timeout=300))
+        for rk in ((2, 3, 1) if e >= 0 else (3, 1)):
+            if tier == 'quick' and rk != 3 and e not in (-2, -1, 0, 1, 2, 5): continue      # exponent kinds only select how |e| is read
+            qs.append(kq('kernel/pow/small/e%d/%s' % (e, KN[rk]), 'h_pow', {'LK': 0, 'RK': rk, 'PB': 4, 'PE': e}, kf_excl=[KP], bounds={'ref_pow': abs(e) + 1},
+                         rec_bounds=PW(e), backend=('sat' if e >= 0 else 'cvc5'), timeout=300))
+    qs.append(kq('kernel/pow/kf-neg-even', 'h_pow', {'LK': 0, 'RK': 3, 'PB': 4, 'PE': -2}, kf_only=KP, bounds={'ref_pow': 3}, rec_bounds=PW(2), backend='cvc5', timeout=300))
     for e in (-3, -2, -1, 0, 1, 2, 3):
-        d = {'LK': INTS, 'RK': (INTS if e >= 0 else 3), 'PB': 64, 'PE': e}
-        qs.append(kq('kernel/pow/wide/e%d' % e, 'h_pow', d, kf_excl=[KP], bounds={'ref_pow': abs(e) + 1}, rec_bounds=PW, backend=('sat' if e >= 0 else 'cvc5'), timeout=300))
+        qs.append(kq('kernel/pow/wide/e%d' % e, 'h_pow', {'LK': INTS, 'RK': 3, 'PB': 64, 'PE': e}, kf_excl=[KP], bounds={'ref_pow': abs(e) + 1}, rec_bounds=PW(e),
+                     backend='cvc5', timeout=300))
     return qs
 def queries(tier):
     return kernel_queries(tier)
